@@ -265,6 +265,46 @@ def templates_in(fnode: ast.AST):
                 yield n, t, h
 
 
+def templates_spliced(S: "Scope", fnode: ast.AST):
+    """templates_in, with holes that are local names bound once to a formatted string (`prefix = f'_yhist_{d}'` ...
+    `f'{prefix}[{i}]'`) spliced into the text; hole numbers are re-assigned."""
+    for n, t, h in templates_in(fnode):
+        if t is None or not h:
+            yield n, t, h
+            continue
+        text, holes, changed = t, list(h), False
+        for _ in range(3):
+            again = False
+            new_holes: List[ast.AST] = []
+            pieces = re.split(r"(⟨\d+⟩)", text)
+            out = []
+            for pc in pieces:
+                m = re.fullmatch(r"⟨(\d+)⟩", pc)
+                if not m:
+                    out.append(pc)
+                    continue
+                hv = holes[int(m.group(1))]
+                sub_t, sub_h = (None, [])
+                if isinstance(hv, ast.Name):
+                    v = S.single_value(hv)
+                    if v is not hv:
+                        sub_t, sub_h = template_of(v)
+                        if sub_t is None:
+                            sub_t, sub_h = format_template(v)
+                if sub_t is not None:
+                    sub_t = re.sub(r"⟨(\d+)⟩", lambda mm: f"⟨{int(mm.group(1)) + len(new_holes)}⟩", sub_t)
+                    out.append(sub_t)
+                    new_holes += list(sub_h)
+                    again = changed = True
+                else:
+                    out.append(f"⟨{len(new_holes)}⟩")
+                    new_holes.append(hv)
+            text, holes = "".join(out), new_holes
+            if not again:
+                break
+        yield n, text, holes
+
+
 def string_template(S: "Scope", e: ast.AST, depth=0) -> Tuple[Optional[str], List[ast.AST]]:
     """Template of a string-valued expression in any spelling (f-string, .format, %, concatenation with str(x)), looking
     through single-definition names."""
@@ -419,15 +459,34 @@ def full_iter(ctx, S: Scope, it: ast.AST) -> Optional[Dict[int, str]]:
     if _iterates_des(e, selfn):
         return {-1: "var"}
 
-    def one(x) -> Optional[str]:
-        if not isinstance(x, ast.Name):
+    def one(x, depth=0) -> Optional[str]:
+        if not isinstance(x, ast.Name) or depth > 3:
             return None
         bs = S.binds(x)
-        if len(bs) != 1 or bs[0].kind != "value" or len(bs[0].path) != 1:
+        if len(bs) != 1 or bs[0].kind != "value":
             return None
         v = bs[0].expr
-        if isinstance(v, ast.Call) and call_name(v) == "_get_symbolic_rhs" and is_attr_of(v.func, selfn, "_get_symbolic_rhs"):
+        if len(bs[0].path) == 1 and isinstance(v, ast.Call) and call_name(v) == "_get_symbolic_rhs" \
+                and is_attr_of(v.func, selfn, "_get_symbolic_rhs"):
             return roles.get(bs[0].path[0])
+        if bs[0].path or v is None:
+            return None
+        # an element-wise image of a per-DE list: [g(s) for s in y_syms] (no filter): one element per DE, same order
+        while isinstance(v, ast.Call) and isinstance(v.func, ast.Name) and v.func.id in ("list", "tuple") and len(v.args) == 1:
+            v = v.args[0]
+        if isinstance(v, (ast.ListComp, ast.GeneratorExp)) and len(v.generators) == 1 and not v.generators[0].ifs \
+                and isinstance(v.generators[0].target, ast.Name):
+            src = one(strip_wrappers(v.generators[0].iter), depth + 1)
+            if src is None:
+                return None
+            if src == "sym":
+                kind, I = extent_operand(S, v.elt)
+                if kind == "extent":
+                    lv = layout_for(ctx, S.f, S).value(I)
+                    key = lv.get("key") if lv else None
+                    if isinstance(key, ast.Name) and key.id == v.generators[0].target.id:
+                        return "extent"         # the layout extent of each state symbol, in state order
+            return "image:" + src
         return None
     if isinstance(e, ast.Call) and isinstance(e.func, ast.Name) and e.func.id == "zip":
         out = {}
@@ -471,8 +530,8 @@ class Layout:
                     if e.id in self.local_maps and ((isinstance(v, ast.Dict) and not v.keys) or
                                                     (isinstance(v, ast.Call) and call_name(v) == "dict" and not v.args)):
                         continue
-                    if isinstance(v, ast.Name) and self.is_map(v, depth + 1):
-                        continue
+                    if isinstance(v, (ast.Name, ast.Attribute)) and self.is_map(v, depth + 1):
+                        continue        # local alias of the layout map (`indices = self._state_var_indices`)
                 return False
             return True
         return False
@@ -482,6 +541,9 @@ class Layout:
         {'map': expr, 'key': expr or None, 'binder': node or None, 'start': bool}."""
         if depth > 24:
             return None
+        if isinstance(e, ast.Call) and isinstance(e.func, ast.Attribute) and e.func.attr == "get" and len(e.args) == 1 and not e.keywords \
+                and self.is_map(e.func.value, depth + 1):
+            return {"map": e.func.value, "key": e.args[0], "binder": None, "start": False}     # M.get(key) (None when absent)
         if isinstance(e, ast.Subscript):
             if self.is_map(e.value, depth + 1):
                 return {"map": e.value, "key": e.slice, "binder": None, "start": False}
@@ -793,10 +855,29 @@ def counter_of(S: Scope, n: ast.Name) -> Optional[Counter]:
     return c
 
 
+def merged_value(S: Scope, e: ast.AST, depth=0) -> ast.AST:
+    """A name with exactly two definitions `x = A` / `x = B` that are the two arms of one if/else (what an inlined guard-return
+    helper leaves behind) is read as the conditional expression `A if test else B`; single definitions are followed."""
+    if not isinstance(e, ast.Name) or depth > 4:
+        return e
+    bs = S.binds(e)
+    if len(bs) == 1 and bs[0].kind == "value" and not bs[0].path and bs[0].expr is not None:
+        return merged_value(S, bs[0].expr, depth + 1)
+    if len(bs) == 2 and all(b.kind == "value" and not b.path and b.expr is not None for b in bs):
+        pa, pb = parent(bs[0].node), parent(bs[1].node)
+        if pa is pb and isinstance(pa, ast.If):
+            a, b = bs
+            if b.node in pa.body and a.node in pa.orelse:
+                a, b = b, a
+            if a.node in pa.body and b.node in pa.orelse and a.node is pa.body[-1] and b.node is pa.orelse[-1]:
+                return ast.IfExp(test=pa.test, body=merged_value(S, a.expr, depth + 1), orelse=merged_value(S, b.expr, depth + 1))
+    return e
+
+
 def extent_operand(S: Scope, e: ast.AST) -> Tuple[str, Optional[ast.AST]]:
     """Recognise the extent expression `(I[1] - I[0]) if isinstance(I, tuple) else 1` -> ('extent', I);
     a literal 1 -> ('one', None); otherwise ('?', None)."""
-    e = S.single_value(e)
+    e = merged_value(S, S.single_value(e))
     if isinstance(e, ast.Constant) and e.value == 1:
         return "one", None
     if isinstance(e, ast.IfExp):
@@ -882,7 +963,31 @@ def entry_stores(ctx, f) -> List[EntryStore]:
                 base, depth = base.value, depth + 1
             if not isinstance(base, ast.Name):
                 raise AnalysisError(f"C12: {f.qual}: entry table of `{norm(st)}` is not a local dict (unrecognised form)")
-            out.append(EntryStore(f, S, st, st.targets[0].slice, base.id, depth, tr))
+            # `tab = T[d]` / `tab = T.setdefault(d, {})` / `for d, tab in T.items()`: the store goes into an inner table of T
+            root = base.id
+            for _ in range(4):
+                bs = S.binds(base)
+                if len(bs) != 1:
+                    break
+                b = bs[0]
+                nxt = None
+                if b.kind == "value" and not b.path and b.expr is not None:
+                    v = b.expr
+                    if isinstance(v, ast.Name):
+                        nxt, dd = v, 0
+                    elif isinstance(v, ast.Subscript) and isinstance(v.value, ast.Name) and not isinstance(v.slice, ast.Slice):
+                        nxt, dd = v.value, 1
+                    elif isinstance(v, ast.Call) and isinstance(v.func, ast.Attribute) and v.func.attr in ("setdefault", "get") \
+                            and isinstance(v.func.value, ast.Name) and v.args:
+                        nxt, dd = v.func.value, 1
+                elif b.kind == "iter":
+                    role, b0, rest = element_origin(b.expr, b.path)
+                    if role == "value" and not rest and isinstance(b0, ast.Name):
+                        nxt, dd = b0, 1
+                if nxt is None:
+                    break
+                base, depth, root = nxt, depth + dd, nxt.id
+            out.append(EntryStore(f, S, st, st.targets[0].slice, root, depth, tr))
     return sorted(out, key=lambda s: s.stmt.lineno)
 
 
@@ -925,8 +1030,13 @@ def check_full_counter(ctx, S: Scope, lay: Layout, c: Counter, sink: ast.AST, el
     if r != want:
         probs.append(f"`{ast.unparse(elem)}` ({'function differentiated' if want == 'f' else 'symbol differentiated against'}) is not "
                      f"the {want!r} element of the loop that advances `{c.name}`: the counter is the position of a different variable")
-    kind, I = extent_operand(S, c.aug.value)
-    if kind == "one":
+    if _loop_elem_role(S, c.loop, roles, S.single_value(c.aug.value)) == "extent":
+        kind, I = "precomputed", None       # the loop's own element of the per-DE list of layout extents
+    else:
+        kind, I = extent_operand(S, c.aug.value)
+    if kind == "precomputed":
+        pass
+    elif kind == "one":
         probs.append(f"`{c.name}` is advanced by 1 for every variable; a vector-valued variable occupies its layout extent, so later "
                      f"positions shift")
     elif kind == "?":
@@ -1913,12 +2023,32 @@ def _r1_fortran(ctx, rid):
 
 
 def fortran_start_idx(ctx) -> Optional[int]:
+    """the literal start index FortranBackend.__init__ hands to its base class (directly, or through a module-level / class-level
+    named constant with exactly one definition)"""
     init = ctx.repo.get_func(FORT, "FortranBackend.__init__")
+    S = Scope(ctx, init)
+
+    def const(v, depth=0):
+        if depth > 4:
+            return None
+        v = S.single_value(v) if depth == 0 else v
+        if isinstance(v, ast.Constant) and isinstance(v.value, int) and not isinstance(v.value, bool):
+            return v.value
+        if isinstance(v, ast.Name):
+            defs = init.module.assigns.get(v.id) or []
+            if len(defs) == 1 and getattr(defs[0], "value", None) is not None:
+                return const(defs[0].value, depth + 1)
+        if isinstance(v, ast.Attribute) and isinstance(v.value, ast.Name) and init.cls is not None \
+                and v.value.id in (init.self_name, init.cls.name, "cls"):
+            r = ctx.repo.lookup_attr(init.cls, v.attr)
+            if r is not None:
+                return const(r[1], depth + 1)
+        return None
     for c in walk_shallow(init.node):
         if isinstance(c, ast.Call) and call_name(c) == "__init__":
             for k in c.keywords:
-                if k.arg == "start_idx" and isinstance(k.value, ast.Constant):
-                    return k.value.value
+                if k.arg == "start_idx":
+                    return const(k.value)
     return None
 
 
@@ -1959,7 +2089,7 @@ def text_index_sites(ctx):
     f = cg_func(ctx, "get_jacobian_func")
     S = Scope(ctx, f)
     lay = layout_for(ctx, f, S)
-    for n, t, h in templates_in(f.node):
+    for n, t, h in templates_spliced(S, f.node):
         m = re.match(r"^_yhist_⟨\d+⟩\[⟨(\d+)⟩(:⟨\d+⟩)?\]$", t or "")
         if m:
             sites.append({"f": f, "S": S, "lay": lay, "node": n, "text": t, "hole": h[int(m.group(1))], "what": "history vector",
@@ -1968,7 +2098,7 @@ def text_index_sites(ctx):
     g = cg_func(ctx, "_expr_to_jac_str")
     Sg = Scope(ctx, g)
     cand = []
-    for n, t, h in templates_in(g.node):
+    for n, t, h in templates_spliced(Sg, g.node):
         m = re.match(r"^y\[⟨(\d+)⟩(:⟨\d+⟩)?\]$", t or "")
         if m:
             cand.append((n, t, h[int(m.group(1))]))
